@@ -76,9 +76,56 @@ def likely_header(rng, ep):
     return []
 
 
+def stretched_pdus(ctx):
+    """Consistent LENGTHENING: a packed PDU whose variable part is continued with well-formed items a foreign sender may
+    add - very many small TLVs, the same TLV twice or three times, TLVs of another kind in between, many segment requests -
+    with the data field length raised accordingly and the CRC recomputed.  Accepting or refusing is both fine; RecursionError,
+    any other undocumented exception or a decoder that does not come back is not."""
+    from ..ops_cfdp import mk_pdu
+    from .c02 import crc16
+    rng = ctx.rng
+    ent = lambda v: [6, len(v)] + v
+    msg = lambda v: [2, len(v)] + v
+    resp = [1, 5, 0x00, 1, 97, 0, 0][:2] + [0x00, 1, 97, 0]            # create-file response "a", empty message: 01 04 00 01 61 00
+    resp = [1, 4, 0x00, 1, 97, 0]
+    plans = []
+    for n in (1, 2, 3, 40, 400, 1100, 3000) + ((12000,) if ctx.thorough else ()):
+        plans.append(("metadata", msg([]) * n))
+        plans.append(("metadata", (msg([7]) + ent([1]) + [5, 0]) * (n // 3 + 1)))
+    for rep in (2, 3, 5):
+        for between in ([], resp, resp * 3, ent([9])):
+            plans.append(("finished", (ent([7]) + between) * rep))
+            plans.append(("finished", between + ent([1, 2]) * rep))
+            plans.append(("eof", ent([7]) * rep + between))
+    for n in (600, 2500):
+        plans.append(("finished", resp * n))
+    for n in (1, 100, 4000):
+        plans.append(("nak", [0, 0, 0, 1, 0, 0, 0, 2] * n))
+    for kind, extra in plans:
+        for crc in (0, 1):
+            cfg = {"crc": crc, "large": 0, "mode": 0, "segctrl": 0, "dir": 0, "src": [1], "dst": [2], "seq": [3]}
+            params = {"metadata": {"closure": 1, "cktype": 0, "size": [0, 0, 1, 0], "srcname": [97], "dstname": [98], "options": []},
+                      "finished": {"cond": 4, "delivery": 1, "status": 1, "responses": [], "fault": []},
+                      "eof": {"cond": 4, "checksum": [1, 2, 3, 4], "size": [9], "fault": []},
+                      "nak": {"start": [0], "end": [9], "segs": []}}[kind]
+            raw = list(bytes(mk_pdu(kind, cfg, params)[0].pack()))
+            hl = 7
+            body = raw[hl:len(raw) - 2 * crc] + list(extra)
+            n = len(body) + 2 * crc
+            if n > 65535:
+                continue
+            b = [raw[0], n >> 8, n & 255] + raw[3:hl] + body
+            if crc:
+                x = crc16(b)
+                b += [x >> 8, x & 255]
+            for ep, want in (("pdu", kind), ("fac", "any"), ("fac.holder", "any")):
+                yield record("rob.decode", {"ep": ep, "octets": b, "full": [], "par": {"want": want}})
+
+
 def events(ctx):
     from ..ops_fault import _unit
     rng = ctx.rng
+    yield from stretched_pdus(ctx)
     maxlen = ctx.q(64, 512)
     for _ in range(ctx.q(1500, 12000)):
         for ep, par in all_eps(rng):
